@@ -120,6 +120,8 @@ fn extreme_val() -> impl Strategy<Value = f32> {
     prop_oneof![
         3 => f32_val_strategy(),
         2 => prop::sample::select(vec![1.2676506e30f32, -1.2676506e30, 1.0e-30, -1.0e-30, 0.0]),
+        // finite values whose difference is not finite in f32
+        1 => prop::sample::select(vec![3.0e38f32, -3.0e38, f32::MAX, f32::MIN]),
         1 => log_uniform(-30.0, 30.0),
     ]
 }
@@ -144,8 +146,17 @@ pub fn c20_strategy() -> impl Strategy<Value = C20Case> {
         any::<bool>(),
     )
         .prop_map(|(timing, default_ez, kfs, start, times, advances, second_state_animated)| {
-            let tl = TlDesc { timing, default_ez, kfs }.sanitize();
+            let mut tl = TlDesc { timing, default_ez, kfs }.sanitize();
             let back = tl.uses_back();
+            if back {
+                // an overshooting (Back) easing legitimately takes a value beyond its endpoints: keep the
+                // endpoints far enough inside the f32 range that the overshoot itself stays finite
+                // (the float analogue of the documented integer range panic)
+                for k in tl.kfs.iter_mut() {
+                    k.a = k.a.map(|v| v.clamp(-8.0e37, 8.0e37));
+                    k.b = k.b.map(|v| v.clamp(-8.0e37, 8.0e37));
+                }
+            }
             C20Case { tl, start: start.map(|v| sanitize_vals(v, back)), times, advances, second_state_animated }
         })
 }
